@@ -10,6 +10,7 @@ import (
 	"strconv"
 	"strings"
 	"sync"
+	"sync/atomic"
 	"time"
 
 	"github.com/innovationb1ue/RedisGO/config"
@@ -18,6 +19,7 @@ import (
 
 // one client connection to Manager.Handle over net.Pipe, with a reader goroutine collecting everything the server writes
 type sconn struct {
+	paused atomic.Bool // the client stops reading (a slow consumer): the reader goroutine waits
 	c      net.Conn
 	mu     sync.Mutex
 	buf    bytes.Buffer
@@ -37,6 +39,9 @@ func newSconn(ctx context.Context, mgr *server.Manager) *sconn {
 	go func() {
 		tmp := make([]byte, 65536)
 		for {
+			for s.paused.Load() {
+				time.Sleep(5 * time.Millisecond)
+			}
 			n, err := cli.Read(tmp)
 			s.mu.Lock()
 			s.buf.Write(tmp[:n])
@@ -211,6 +216,38 @@ func runServe(args []string) {
 			for _, p := range ps {
 				fmt.Fprintf(out, "C %s %s => %d %d %s %s\n", p.id, p.hexp, p.t0, p.t1, hx(p.got), p.st)
 			}
+		case "STALL":
+			// STALL <id> <ms> <hex> — like C, but the client reads only the first chunk of what the server writes, then does not read for
+			// <ms> milliseconds (a slow consumer on an open connection), then reads on; echoed, then reported as a C line
+			c, ok := conns[f[1]]
+			if !ok {
+				c = newSconn(ctx, mgr)
+				conns[f[1]] = c
+			}
+			ms, _ := strconv.Atoi(f[2])
+			seq++
+			token := fmt.Sprintf("verif-sentinel-%d", seq)
+			payload := append(unhex(f[3]), []byte(fmt.Sprintf("*2\r\n$4\r\nPING\r\n$%d\r\n%s\r\n", len(token), token))...)
+			t0 := time.Now().Unix()
+			c.paused.Store(true) // the reader is already inside Read: it takes one chunk, then waits
+			go func() {
+				c.c.SetWriteDeadline(time.Now().Add(time.Duration(ms+5000) * time.Millisecond))
+				c.c.Write(payload)
+			}()
+			time.Sleep(time.Duration(ms) * time.Millisecond)
+			c.paused.Store(false)
+			suffix := []byte(fmt.Sprintf("$%d\r\n%s\r\n", len(token), token))
+			st := c.waitFor(suffix, 5*time.Second)
+			t1 := time.Now().Unix()
+			got := c.take()
+			if st == "open" {
+				got = got[:len(got)-len(suffix)]
+			}
+			if st == "timeout" {
+				c.c.Close()
+			}
+			fmt.Fprintf(out, "%s\n", line)
+			fmt.Fprintf(out, "C %s %s => %d %d %s %s\n", f[1], f[3], t0, t1, hx(got), st)
 		case "D":
 			c, ok := conns[f[1]]
 			if !ok {
